@@ -289,7 +289,8 @@ def install(s, world):
     pe.sleep = lambda d: s.sleep(d)
     pe.time = lambda: 1.0e9 + s.now
     pe.kill_process_tree = lambda p: (kill_proc(p, -9, "kill_process_tree"), p.join())
-    pe.get_exitcodes_terminated_worker = lambda procs: str(sorted(str(p.exitcode) for p in procs.values() if p.exitcode is not None))
+    from joblib.externals.loky.backend import utils as lutils
+    lutils.time = clock               # the real get_exitcodes_terminated_worker / _format_exitcodes run (0.05 s patience polls)
     pe._global_shutdown_lock = ds.SimLock()
     pe._global_shutdown = False
     pe._check_system_limits = lambda: None
